@@ -137,6 +137,118 @@ func rulesC19(e *Engine, r *Report) {
 		_ = so
 	}
 
+	// ---------------------------------------------------------------- R19.6
+	r.Rule("R19.6", "like to like: what applyAux stores into field F of the configuration derives from field F of the parsed document (and, for constants, is chosen under a test of that field), and what MarshalJSON writes back into F derives from F of the configuration - never from a different option; where two lists are converted in one pass (include + ignore patterns) each side is cut out of the joined list at the length of the list that was put FIRST")
+	for _, p := range pairs {
+		st, _ := lookup(p.T)
+		at, _ := lookup(p.aux)
+		if st == nil || at == nil {
+			continue
+		}
+		common := map[string]bool{}
+		for i := 0; i < st.NumFields(); i++ {
+			for j := 0; j < at.NumFields(); j++ {
+				if st.Field(i).Name() == at.Field(j).Name() && st.Field(i).Exported() {
+					common[st.Field(i).Name()] = true
+				}
+			}
+		}
+		type side struct {
+			fn       *ssa.Function
+			dst, src string
+		}
+		sides := []side{{e.Fn("sts.(*" + p.T + ").applyAux"), "p0", "p1."}, {e.Fn("sts.(*" + p.T + ").MarshalJSON"), "&new(sts." + p.aux + ")", "p0."}}
+		for _, sd := range sides {
+			if sd.fn == nil {
+				continue
+			}
+			mentions := func(s string) map[string]bool {
+				out := map[string]bool{}
+				for g := range common {
+					key := sd.src + g
+					for i := 0; ; {
+						k := strings.Index(s[i:], key)
+						if k < 0 {
+							break
+						}
+						end := i + k + len(key)
+						if end >= len(s) || !(s[end] == '_' || (s[end] >= 'a' && s[end] <= 'z') || (s[end] >= 'A' && s[end] <= 'Z') || (s[end] >= '0' && s[end] <= '9')) {
+							out[g] = true
+							break
+						}
+						i = end
+					}
+				}
+				return out
+			}
+			n := 0
+			Instrs(sd.fn, func(in ssa.Instruction) {
+				sto, ok := in.(*ssa.Store)
+				if !ok {
+					return
+				}
+				addr := strings.TrimLeft(e.Canon(sto.Addr), "&")
+				o := strings.TrimLeft(sd.dst, "&")
+				if !strings.HasPrefix(addr, o+".") {
+					return
+				}
+				f := strings.TrimPrefix(addr, o+".")
+				if i := strings.IndexAny(f, ".["); i >= 0 {
+					f = f[:i]
+				}
+				if !common[f] {
+					return
+				}
+				val := e.Canon(sto.Val)
+				vm := mentions(val)
+				construct := fmt.Sprintf("%s: %s ← %s", e.ShortName(sd.fn), f, shorten(val))
+				switch {
+				case len(vm) == 0:
+					cm := map[string]bool{}
+					for _, c := range e.domConds(in.Block()) {
+						for g := range mentions(c) {
+							cm[g] = true
+						}
+					}
+					if len(cm) == 0 {
+						return // a default that depends on no option
+					}
+					n++
+					r.Check(cm[f], "R19.6", construct, e.InstrPos(in), "the value stored into "+f+" is chosen under a test of other options only", 1)
+				case len(vm) == 1:
+					n++
+					r.Check(vm[f], "R19.6", construct, e.InstrPos(in), "option "+f+" is filled from a different option", 1)
+				default:
+					n++
+					// joined-list idiom: builtin(append)(src.A, src.B) converted in one loop, then cut
+					var A, B string
+					for g1 := range vm {
+						for g2 := range vm {
+							if g1 != g2 && strings.Contains(val, "builtin(append)("+sd.src+g1+", "+sd.src+g2+")") {
+								A, B = g1, g2
+							}
+						}
+					}
+					okCut := false
+					if len(vm) == 2 && A != "" {
+						lenA := "builtin(len)(" + sd.src + A + ")"
+						if f == A {
+							okCut = strings.HasSuffix(val, "[0:"+lenA+"]") || strings.HasSuffix(val, "[:"+lenA+"]")
+						}
+						if f == B {
+							okCut = strings.HasSuffix(val, "["+lenA+":]")
+						}
+					}
+					r.Check(okCut, "R19.6", construct, e.InstrPos(in),
+						"option "+f+" is filled from a value that mixes several options and is not the joined-list cut (first list: [0:len(first)], second list: [len(first):])", 1, val)
+				}
+			})
+			if p.T == "SourceConf" || p.T == "TagConf" {
+				r.Min("R19.6", "option stores examined in "+e.ShortName(sd.fn), n, 5)
+			}
+		}
+	}
+
 	// ---------------------------------------------------------------- R19.2 / R19.3
 	r.Rule("R19.2", "tri-state booleans: every bool field of a struct that propagate() hands to CopyStruct as the target has a marker is<Field>Set that applyAux sets on an explicit false, propagate() consults to restore the original after the copy, and MarshalJSON consults to emit \"false\"")
 	r.Rule("R19.3", "propagate restores what it saved: for each marker the value written back after CopyStruct is the same field's value read before the copy, stored to the same element under that field's own marker")
